@@ -57,6 +57,10 @@ theorem add_sums {t1 t2 : Table} (h : Compatible t1 t2 = true) {l x : Str} (hp :
   obtain ⟨w1, w2, s12, _⟩ := compatible_unpack h
   rw [add_structure h, weightAt_mapWeights w1 _ hp, weightOf_eq_weightAt w2 (s12 _ hp)]
 
+/-- ... and the result lists exactly the first table's (letter, triplet) pairs, so `add_sums` speaks about every codon of the result -/
+theorem add_pairs {t1 t2 : Table} (h : Compatible t1 t2 = true) : pairs (addTable t1 t2) = pairs t1 := by
+  rw [add_structure h, pairs_mapWeights]
+
 /-- the first table's assignment, order, start and stop codons are kept -/
 theorem add_keeps_code {t1 t2 : Table} (h : Compatible t1 t2 = true) : codeOf (addTable t1 t2) = codeOf t1 := by
   rw [add_structure h, codeOf_mapWeights]
@@ -69,6 +73,32 @@ theorem compromise_rejects (t1 t2 : Table) (c : Rat) (h : c < 0 ∨ c > 1) : com
   rcases h with h | h
   · simp [h]
   · by_cases h0 : c < 0 <;> simp [h0, h]
+
+/-- the same for every arithmetic (in particular the float64 one the code is compared with) -/
+theorem compromise_rejects_any {κ : Type} (A : Arith κ) (t1 t2 : Table) (c : κ)
+    (h : A.below0 c = true ∨ A.above1 c = true) : compromise A t1 t2 c = .err := by
+  simp only [compromise]
+  rcases h with h | h
+  · simp [h]
+  · cases h0 : A.below0 c <;> simp [h]
+
+theorem comb_comm {κ : Type} (A : Arith κ) (hm : ∀ a b, A.mean a b = A.mean b a) (cw f s : Int) :
+    comb A cw f s = comb A cw s f := by
+  simp only [comb, Bool.or_comm (decide (f < cw)), hm f s]
+
+/-- symmetry as maps for EVERY arithmetic whose mean is commutative (float64 addition is): no fact about
+rounding is needed, so the symmetry of the real function is exact, not up to ±1 -/
+theorem compromise_symm_any {κ : Type} (A : Arith κ) (hm : ∀ a b, A.mean a b = A.mean b a)
+    {t1 t2 : Table} (h : Compatible t1 t2 = true) (c : κ) (h0 : A.below0 c = false) (h1 : A.above1 c = false) :
+    ∃ r12 r21, compromise A t1 t2 c = .ok r12 ∧ compromise A t2 t1 c = .ok r21 ∧
+      (∀ q, q ∈ pairs r12 ↔ q ∈ pairs r21) ∧ ∀ l x, (l, x) ∈ pairs r12 → weightAt r12 l x = weightAt r21 l x := by
+  obtain ⟨w1, w2, s12, s21⟩ := compatible_unpack h
+  refine ⟨_, _, compromise_eq A w1 w2 s12 s21 c h0 h1, compromise_eq A w2 w1 s21 s12 c h0 h1, ?_, ?_⟩
+  · intro q; rw [pairs_mapWeights, pairs_mapWeights]; exact ⟨s12 q, s21 q⟩
+  · intro l x hp
+    rw [pairs_mapWeights] at hp
+    rw [weightAt_mapWeights w1 _ hp, weightAt_mapWeights w2 _ (s12 _ hp)]
+    exact comb_comm A hm _ _ _
 
 theorem finalCodons_triplets {κ : Type} (A : Arith κ) (cw ft st : Int) (sws : List Int) (cs : List Codon) :
     ∀ (i : Nat) (r : List Codon), finalCodons A cw ft st sws i cs = some r → r.map (·.triplet) = cs.map (·.triplet) := by
